@@ -207,6 +207,55 @@ def specials(run):
                         yield case, line, "Parameter", got
 
 
+def special_structured(run, rng, i):
+    """random instances of the documented special forms (each has its own theorem in Props/C04.lean)"""
+    sec = SECS[i % len(SECS)]
+    kind = ("no-period", "last-colon", "numeric-unit", "trailing-dot")[(i // len(SECS)) % 4]
+    name = gen_name(rng)
+    pads = [rng.choice(PADS) for _ in range(6)]
+    base = LETTERS + DIGITS + PUNCT + NONASCII
+    if kind == "no-period":
+        value = word(rng, rng.randint(0, 6), base + ". ") + rng.choice(["", ":", " : ", "3:1", "12:30"]) + word(rng, rng.randint(0, 6), base + ".")
+        if sec == "Curves":
+            while ".." in value:
+                value = value.replace("..", ".")
+        line = pads[0] + name + pads[1] + ":" + pads[2] + value + pads[5]
+        exp = [name, "", value.strip(), ""]
+    elif kind == "last-colon":
+        if sec == "Parameter":
+            sec = "Well"
+        unit = rng.choice(["", "M", "K/M3", "a.b"])
+        v = word(rng, rng.randint(1, 5), base) + rng.choice([":", " : ", ": "]) + word(rng, rng.randint(1, 5), base + ".")
+        if sec == "Curves":
+            while ".." in v:
+                v = v.replace("..", ".")
+        d = word(rng, rng.randint(0, 8), base + ". ").strip()
+        line = pads[0] + name + pads[1] + "." + unit + (pads[2] or " ") + v + pads[3] + ":" + pads[4] + d + pads[5]
+        exp = [name, unit, v.strip(), d]
+    elif kind == "numeric-unit":
+        if sec == "Parameter":
+            sec = "Well"
+        digits = word(rng, rng.randint(1, 4), DIGITS)
+        sfx = word(rng, rng.randint(1, 4), LETTERS + "/%")
+        blank = rng.choice([" ", "\t"])
+        value = gen_value(rng, sec).replace(":", "")
+        d = gen_descr(rng, "Well")
+        line = pads[0] + name + pads[1] + "." + digits + blank + sfx + (pads[2] or "  ") + value + pads[3] + ":" + pads[4] + d + pads[5]
+        exp = [name, digits + blank + sfx, value.strip(), d]
+    else:
+        unit = rng.choice(["M", "FT", "K/M3", "lb"])
+        value = gen_value(rng, sec).replace(":", "")
+        d = gen_descr(rng, "Well")
+        line = pads[0] + name + pads[1] + "." + unit + "." + (pads[2] or " ") + value + pads[3] + ":" + pads[4] + d + pads[5]
+        exp = [name, unit, value.strip(), d]
+    got = real(line, sec)
+    case = {"sec": sec, "line": line, "special": kind, "expected": exp}
+    run.case(case, nontrivial=True, tags=["special-" + kind, "sec=%s" % sec])
+    if got != exp:
+        run.fail("special-" + kind, case, {"expected": exp, "observed": got})
+    return case, line, sec, got
+
+
 def exhaustive(run):
     scopes = [("a1 .:", run.budget(6, 7)), ("2 :0hH.m", run.budget(5, 6)), ("a.:\t3M5 ", run.budget(4, 5))]
     for alpha, L in scopes:
@@ -270,6 +319,9 @@ def run(run):
         add(case, line, sec, got, True)
     for case, line, sec, got in specials(run):
         add(case, line, sec, got, True)
+    for i in range(run.budget(6000, 120000)):
+        case, line, sec, got = special_structured(run, run.rng, i)
+        add(case, line, sec, got, True)
     # (a) exhaustive small scopes (context: most of these strings are junk, the property does not speak about them)
     n = 0
     for line, sec in exhaustive(run):
@@ -303,6 +355,10 @@ def search(run, disagreements):
         c = d["case"]
         if c and "fields" in c:
             check_layout(run, c["fields"], c["pads"], c["sec"], "search")
+    for i in range(run.budget(30000, 300000)):
+        special_structured(run, run.rng, i)
+        if run.failures:
+            return
     for i in range(run.budget(100000, 1000000)):
         sec = SECS[i % len(SECS)]
         f, p = gen_case(run.rng, sec)
@@ -351,6 +407,8 @@ def replay(run, payload):
     if "fields" in c:
         return real(layout(c["fields"], c["pads"]), c["sec"]) == c["fields"]
     if "special" in c:
+        if "expected" in c:
+            return real(c["line"], c["sec"]) == c["expected"]
         for clause, sec, line, exp in SPECIALS:
             if line == c["line"]:
                 return real(line, sec) == exp
